@@ -70,7 +70,7 @@ impl GlideProcessor {
 
 /// `coeffs(fs, f0)` is the lowpass filter coefficients for sample rate `fs`, cutoff frequency `f0`, and Q = 0
 fn coeffs(fs: Hertz<f32>, f0: Hertz<f32>) -> Coefficients<f32> {
-    Coefficients::<f32>::from_params(Type::SinglePoleLowPass, fs, f0, 0.0_f32).unwrap()
+    Coefficients::<f32>::from_params(Type::SinglePoleLowPassApprox, fs, f0, 0.0_f32).unwrap()
 }
 
 #[cfg(test)]
